@@ -12,7 +12,7 @@ import (
 func init() {
 	register(
 		&Rule{ID: "R09.1", Props: []string{"C09", "C03"}, Floor: 4, Title: "LatestValid reports at most one metric per peer, the window's latest, and only if it is valid and unexpired; Discard = !Valid || Expired; LogMetric stores every metric", Run: r091},
-		&Rule{ID: "R09.2", Props: []string{"C09", "C03"}, Floor: 3, Title: "LatestMetrics returns unfiltered metrics only without a peerset provider; otherwise the peerset-filtered list or nothing; the filter keeps members only", Run: r092},
+		&Rule{ID: "R09.2", Props: []string{"C09", "C03", "C10"}, Floor: 3, Title: "LatestMetrics returns unfiltered metrics only without a peerset provider; otherwise the peerset-filtered list or nothing; the filter keeps members only", Run: r092},
 		&Rule{ID: "R09.3", Props: []string{"C09"}, Floor: 3, Title: "the failure checker reports failure only when there is no metric or the latest metric expired", Run: r093},
 		&Rule{ID: "R09.4", Props: []string{"C09"}, Floor: 4, Title: "alert(): after the threshold the stale metric and its counter are forgotten and nothing is sent; otherwise the counter is incremented before sending; all under the checker's lock", Run: r094},
 		&Rule{ID: "R09.5", Props: []string{"C09"}, Floor: 4, Title: "publish cadence: ping TTL is a multiple > 1 of the ping interval on which the loop ticks; informer metrics are re-published at TTL divided by a constant > 1 on success and on error", Run: r095},
